@@ -133,6 +133,17 @@ CHECKS["C12"] = dict(
     technique="TLA+ reference executor with auto-escaping model-checked with TLC; TLC-generated vectors replayed into the Go code",
     design="3/C12")
 
+CHECKS["C02"] = dict(
+    text="spec/props/C02.tla enumerates (a) 61 operator/tag forms x 39 x 39 operands (template values and Go fixtures: slices, "
+         "int-keyed maps, structs, pointers, nil pointers, Stringer, int8/uint64, decimal, safe, func, chan) and (b) the 31 "
+         "built-in Twig filters x 39 piped values x 0..2 arguments (as expression and as filter section). TLC checks RefTotal: the "
+         "reference executor of Exec.tla is defined (ok/err/out-of-model) on every case over template values; each vector is "
+         "replayed into Env.Execute in a worker process and must return output or error (no panic, stack overflow or deadline).",
+    note=_EXEC_NOTE + " Twig filters are modelled abstractly (total, value unconstrained): the spec contributes the exhaustive "
+         "operand/argument matrix and the obligation to return.",
+    technique="TLA+ case enumeration + reference totality checked with TLC; vectors replayed into the Go code under a process-level watchdog",
+    design="3/C02")
+
 NOT_YET = {}
 
 props = [json.loads(l)["id"] for l in open(os.path.join(VERIF, "properties.jsonl"))]
